@@ -425,20 +425,34 @@ theorem c08_no_safe_state (sem : Sem σ δ) (s : RState σ δ) (e : Err) (dec : 
 
 /-! ## The resource thread -/
 
-/-- **The resource thread (`run_resource_loop`) and the latch — partial: no post-cycle simulation
-error.**  Started on a runtime that is not faulted, one iteration either lets the thread go on —
-and then the runtime is again not faulted (the cycle succeeded, or the error / watchdog overrun
-was answered by a warm restart because the policy / action is `restart`) — or ends the thread in
-`Faulted` with `last_error = e`, and then the runtime is faulted with `e` latched.  So the thread
-never asks a faulted runtime for a cycle, and never runs a cycle after a fault without a restart
-in between.  Guard `post = none`: see `c08_counterexample_post_cycle`. -/
-theorem c08_runner_iter_partial (sem : Sem σ δ) (s : RState σ δ) (t : Int) (wdEnabled over : Bool)
-    (hs : s.faulted = false) :
-    ((runnerIter sem s t wdEnabled over none).err = none →
-      (runnerIter sem s t wdEnabled over none).st.faulted = false) ∧
-    (∀ e, (runnerIter sem s t wdEnabled over none).err = some e →
-      (runnerIter sem s t wdEnabled over none).st.faulted = true ∧
-      (runnerIter sem s t wdEnabled over none).st.lastFault = some e) := by
+/-- Safe image after events `pre` followed by `apply_fault` with a safe-state decision. -/
+theorem c08_safe_after (sem : Sem σ δ) (s0 : RState σ δ) (pre : List Ev) (e : Err) (dec : FaultDecision)
+    (h : dec.applySafeState = true) :
+    SafeDelivered sem.nDrivers s0.safe
+      { st := (applyFault sem s0 e dec).st, evs := pre ++ (applyFault sem s0 e dec).evs, err := some e } e := by
+  obtain ⟨a1, _, ⟨p2, a3⟩, a4, a5⟩ := c08_safe_image sem s0 e dec h
+  refine ⟨a1, ?_, ⟨pre ++ p2, ?_⟩, a4, a5⟩
+  · intro d hd
+    simp only []
+    rw [a3, ← List.append_assoc]
+    exact lastWrite_tail d sem.nDrivers hd _ _ _
+  · simp only []
+    rw [a3]; simp
+
+/-- **The resource thread (`run_resource_loop`) and the latch.**  Started on a runtime that is not
+faulted, one iteration — whatever the cycle, the post-cycle simulation step and the watchdog do —
+either lets the thread go on, and then the runtime is again not faulted (the cycle succeeded, or
+the error / watchdog overrun was answered by a warm restart because the policy / action is
+`restart`), or ends the thread in `Faulted` with `last_error = e`, and then the runtime is faulted
+with `e` latched.  So the thread never asks a faulted runtime for a cycle, and never runs a cycle
+after a fault without a restart in between. -/
+theorem c08_runner_iter (sem : Sem σ δ) (s : RState σ δ) (t : Int) (wdEnabled over : Bool)
+    (post : Option Err) (hs : s.faulted = false) :
+    ((runnerIter sem s t wdEnabled over post).err = none →
+      (runnerIter sem s t wdEnabled over post).st.faulted = false) ∧
+    (∀ e, (runnerIter sem s t wdEnabled over post).err = some e →
+      (runnerIter sem s t wdEnabled over post).st.faulted = true ∧
+      (runnerIter sem s t wdEnabled over post).st.lastFault = some e) := by
   have hs0 : ({ s with now := t } : RState σ δ).faulted = false := hs
   have hout := c08_cycle_outcome sem { s with now := t } hs0
   simp only [runnerIter]
@@ -457,23 +471,35 @@ theorem c08_runner_iter_partial (sem : Sem σ δ) (s : RState σ δ) (t : Int) (
     simp only [hr] at hout
     obtain ⟨h1, _, h3, _⟩ := hout
     simp only [h1]
-    split
-    · split
+    cases post with
+    | some e0 =>
+      simp only []
+      have hl := c08_apply_fault_latches sem (executeCycle sem { s with now := t }).st .simulationFault
+        (FaultDecision.fromFaultPolicy (executeCycle sem { s with now := t }).st.policy)
+      split
       · exact ⟨fun _ => by simp [step], fun e' h => by simp at h⟩
       · refine ⟨fun h => by simp at h, fun e' h => ?_⟩
         simp only [Option.some.injEq] at h
         subst h
-        have := c08_apply_fault_latches sem (executeCycle sem { s with now := t }).st .watchdogTimeout
-          (FaultDecision.fromWatchdog (executeCycle sem { s with now := t }).st.wdAction)
-        exact ⟨this.1, this.2.1⟩
-    · exact ⟨fun _ => h3, fun e' h => by simp at h⟩
+        exact ⟨hl.1, hl.2.1⟩
+    | none =>
+      simp only []
+      split
+      · split
+        · exact ⟨fun _ => by simp [step], fun e' h => by simp at h⟩
+        · refine ⟨fun h => by simp at h, fun e' h => ?_⟩
+          simp only [Option.some.injEq] at h
+          subst h
+          have := c08_apply_fault_latches sem (executeCycle sem { s with now := t }).st .watchdogTimeout
+            (FaultDecision.fromWatchdog (executeCycle sem { s with now := t }).st.wdAction)
+          exact ⟨this.1, this.2.1⟩
+      · exact ⟨fun _ => h3, fun e' h => by simp at h⟩
 
-/-- The same over any number of iterations (induction): while the thread runs, the runtime is not
-faulted at the start of any iteration; when the thread ends in `Faulted`, the fault is latched.
-Guard: no iteration has a post-cycle simulation error. -/
-theorem c08_runner_loop_partial (sem : Sem σ δ) (interval : Int) (wdEnabled over : Bool)
-    (posts : Nat → Option Err) (hposts : ∀ k, posts k = none) (n : Nat)
-    (s : RState σ δ) (t : Int) (hs : s.faulted = false) :
+/-- The same over any number of iterations (induction), for every sequence of post-cycle results:
+while the thread runs, the runtime is not faulted at the start of any iteration; when the thread
+ends in `Faulted`, the fault is latched. -/
+theorem c08_runner_loop (sem : Sem σ δ) (interval : Int) (wdEnabled over : Bool)
+    (posts : Nat → Option Err) (n : Nat) (s : RState σ δ) (t : Int) (hs : s.faulted = false) :
     ((runnerLoop sem interval wdEnabled over posts n s t).err = none →
       (runnerLoop sem interval wdEnabled over posts n s t).st.faulted = false) ∧
     (∀ e, (runnerLoop sem interval wdEnabled over posts n s t).err = some e →
@@ -482,9 +508,9 @@ theorem c08_runner_loop_partial (sem : Sem σ δ) (interval : Int) (wdEnabled ov
   induction n generalizing s t with
   | zero => exact ⟨fun _ => hs, fun e h => by simp [runnerLoop] at h⟩
   | succ n ih =>
-    have hi := c08_runner_iter_partial sem s t wdEnabled over hs
-    simp only [runnerLoop, hposts n]
-    cases hr : (runnerIter sem s t wdEnabled over none).err with
+    have hi := c08_runner_iter sem s t wdEnabled over (posts n) hs
+    simp only [runnerLoop]
+    cases hr : (runnerIter sem s t wdEnabled over (posts n)).err with
     | some e =>
       simp only []
       refine ⟨fun h => by simp [hr] at h, fun e' h => ?_⟩
@@ -493,23 +519,27 @@ theorem c08_runner_loop_partial (sem : Sem σ δ) (interval : Int) (wdEnabled ov
       simp only []
       exact ih _ _ (hi.1 hr)
 
-/-- **Safe image when the thread ends — partial: no post-cycle simulation error.**  If the
-iteration ends the thread because the cycle failed and the fault policy is `safe_halt`, or
-because the watchdog tripped and its action is `halt` or `safe_halt`, the safe image was forced
-and delivered to every driver before the thread reported `Faulted`. -/
-theorem c08_runner_safe_partial (sem : Sem σ δ) (s : RState σ δ) (t : Int) (wdEnabled over : Bool)
-    (hs : s.faulted = false) (e : Err) (he : (runnerIter sem s t wdEnabled over none).err = some e) :
-    (∀ e', (executeCycle sem { s with now := t }).err = some e' → s.policy = .safeHalt →
-      SafeDelivered sem.nDrivers s.safe (runnerIter sem s t wdEnabled over none) e) ∧
-    ((executeCycle sem { s with now := t }).err = none → s.wdAction ≠ .restart →
-      SafeDelivered sem.nDrivers s.safe (runnerIter sem s t wdEnabled over none) .watchdogTimeout) := by
+/-- **Safe image when the thread ends.**  If the iteration ends the thread because the cycle
+failed and the fault policy is `safe_halt`, or because the post-cycle simulation step failed and
+the fault policy is `safe_halt`, or because the watchdog tripped and its action is `halt` or
+`safe_halt`, the safe image was forced and delivered to every driver before the thread reported
+`Faulted`. -/
+theorem c08_runner_safe (sem : Sem σ δ) (s : RState σ δ) (t : Int) (wdEnabled over : Bool)
+    (post : Option Err) (hs : s.faulted = false) :
+    (∀ e, (executeCycle sem { s with now := t }).err = some e → s.policy = .safeHalt →
+      SafeDelivered sem.nDrivers s.safe (runnerIter sem s t wdEnabled over post) e) ∧
+    ((executeCycle sem { s with now := t }).err = none → post.isSome = true → s.policy = .safeHalt →
+      SafeDelivered sem.nDrivers s.safe (runnerIter sem s t wdEnabled over post) .simulationFault) ∧
+    ((executeCycle sem { s with now := t }).err = none → post = none → (wdEnabled && over) = true →
+      s.wdAction ≠ .restart →
+      SafeDelivered sem.nDrivers s.safe (runnerIter sem s t wdEnabled over post) .watchdogTimeout) := by
   have hs0 : ({ s with now := t } : RState σ δ).faulted = false := hs
-  constructor
-  · intro e' hc hp
-    have hsd := c08_cycle_safe_halt sem { s with now := t } hs0 hp e' hc
+  have hout := c08_cycle_outcome sem { s with now := t } hs0
+  have hctl := runPhases_sameCtl (cyclePhases sem) (cyclePhases_sameCtl sem) { s with now := t }
+  refine ⟨?_, ?_, ?_⟩
+  · intro e hc hp
+    have hsd := c08_cycle_safe_halt sem { s with now := t } hs0 hp e hc
     have hne : ¬ (executeCycle sem { s with now := t }).st.policy = .restart := by
-      have hctl := runPhases_sameCtl (cyclePhases sem) (cyclePhases_sameCtl sem) { s with now := t }
-      have hout := c08_cycle_outcome sem { s with now := t } hs0
       cases hr : (runPhases (cyclePhases sem) { s with now := t }).err with
       | none => simp only [hr] at hout; rw [hout.1] at hc; cases hc
       | some e2 =>
@@ -518,13 +548,32 @@ theorem c08_runner_safe_partial (sem : Sem σ δ) (s : RState σ δ) (t : Int) (
         simp only [recordFault]
         rw [(applyFault_ctl sem _ e2 _).1, hctl.policy]
         simp [hp]
-    simp only [runnerIter, hc, hne, if_false] at he ⊢
-    simp only [Option.some.injEq] at he
-    subst he
+    simp only [runnerIter, hc, hne, if_false]
     exact hsd
-  · intro hc hw
-    have hout := c08_cycle_outcome sem { s with now := t } hs0
-    have hctl := runPhases_sameCtl (cyclePhases sem) (cyclePhases_sameCtl sem) { s with now := t }
+  · intro hc hpost hp
+    cases hr : (runPhases (cyclePhases sem) { s with now := t }).err with
+    | some e2 => simp only [hr] at hout; rw [hout.1] at hc; cases hc
+    | none =>
+      simp only [hr] at hout
+      have hpol : (executeCycle sem { s with now := t }).st.policy = .safeHalt := by
+        rw [hout.2.1]; exact hctl.policy.trans hp
+      have hsafe : (executeCycle sem { s with now := t }).st.safe = s.safe := by
+        rw [hout.2.1]; exact hctl.safe
+      cases post with
+      | none => simp at hpost
+      | some e0 =>
+        have hfp : ¬ (applyFault sem (executeCycle sem { s with now := t }).st .simulationFault
+            (FaultDecision.fromFaultPolicy (executeCycle sem { s with now := t }).st.policy)).st.policy = .restart := by
+          rw [(applyFault_ctl sem _ _ _).1, hpol]; simp
+        simp only [runnerIter, hc, hfp, if_false]
+        have hdec : (FaultDecision.fromFaultPolicy (executeCycle sem { s with now := t }).st.policy).applySafeState = true := by
+          rw [hpol]; rfl
+        have := c08_safe_after sem (executeCycle sem { s with now := t }).st
+          (executeCycle sem { s with now := t }).evs .simulationFault _ hdec
+        rw [hsafe] at this
+        exact this
+  · intro hc hpost hwo hw
+    subst hpost
     cases hr : (runPhases (cyclePhases sem) { s with now := t }).err with
     | some e2 => simp only [hr] at hout; rw [hout.1] at hc; cases hc
     | none =>
@@ -533,23 +582,22 @@ theorem c08_runner_safe_partial (sem : Sem σ δ) (s : RState σ δ) (t : Int) (
         rw [hout.2.1]; exact hctl.wdAction
       have hsafe : (executeCycle sem { s with now := t }).st.safe = s.safe := by
         rw [hout.2.1]; exact hctl.safe
-      simp only [runnerIter, hc] at he ⊢
-      by_cases hwo : (wdEnabled && over) = true
-      · have hnr : ¬ (executeCycle sem { s with now := t }).st.wdAction = .restart := by rw [hwd]; exact hw
-        simp only [hwo, if_true, hnr, if_false] at he ⊢
-        have hdec : (FaultDecision.fromWatchdog (executeCycle sem { s with now := t }).st.wdAction).applySafeState = true := by
-          rw [hwd]; cases hh : s.wdAction <;> simp_all [FaultDecision.fromWatchdog]
-        have hsd := c08_safe_image sem (executeCycle sem { s with now := t }).st .watchdogTimeout _ hdec
-        rw [hsafe] at hsd
-        obtain ⟨a1, _, ⟨pre, a3⟩, a4, a5⟩ := hsd
-        refine ⟨a1, ?_, ⟨(executeCycle sem { s with now := t }).evs ++ pre, ?_⟩, a4, a5⟩
-        · intro d hd
-          simp only []
-          rw [a3, ← List.append_assoc]
-          exact lastWrite_tail d sem.nDrivers hd _ _ _
-        · simp only []
-          rw [a3]; simp
-      · simp [hwo] at he
+      have hnr : ¬ (executeCycle sem { s with now := t }).st.wdAction = .restart := by rw [hwd]; exact hw
+      simp only [runnerIter, hc, hwo, if_true, hnr, if_false]
+      have hdec : (FaultDecision.fromWatchdog (executeCycle sem { s with now := t }).st.wdAction).applySafeState = true := by
+        rw [hwd]; cases hh : s.wdAction <;> simp_all [FaultDecision.fromWatchdog]
+      have := c08_safe_after sem (executeCycle sem { s with now := t }).st
+        (executeCycle sem { s with now := t }).evs .watchdogTimeout _ hdec
+      rw [hsafe] at this
+      exact this
+
+/-- **Restart request — partial: the retain store loads.**  Serving an external restart request
+leaves the thread running on a runtime that is not faulted.  Guard `loadErr = none`: see
+`c08_counterexample_restart_load`. -/
+theorem c08_runner_restart_signal_partial (sem : Sem σ δ) (s : RState σ δ) (m : RestartMode) :
+    (runnerRestartSignal sem s m none).err = none ∧
+    (runnerRestartSignal sem s m none).st.faulted = false := by
+  simp [runnerRestartSignal, step]
 
 /-! ## Non-vacuity -/
 
@@ -639,28 +687,33 @@ example :
   intro r
   exact ⟨rfl, rfl, rfl, rfl⟩
 
-/-- … and with a watchdog that trips on every cycle (action `safe_halt`) the first iteration ends
-the thread with `WatchdogTimeout` after a successful cycle. -/
+/-- … with a watchdog that trips on every cycle (action `safe_halt`) the first iteration ends the
+thread with `WatchdogTimeout` after a successful cycle; with a failing post-cycle simulation step
+(policy `safe_halt`) it ends with `SimulationFault`, latched, and the safe value is in the image
+(the witness of the repaired finding C08-runner-post-cycle). -/
 example :
     (runnerIter toy toyState 0 true true none).err = some .watchdogTimeout ∧
     (executeCycle toy { toyState with now := 0 }).err = none ∧ toyState.wdAction ≠ .restart ∧
-    toyState.faulted = false :=
-  ⟨rfl, rfl, by decide, rfl⟩
+    toyState.faulted = false ∧ toyState.policy = .safeHalt ∧
+    (runnerIter toy toyState 0 false false (some .invalidIoAddress)).err = some .simulationFault ∧
+    (runnerIter toy toyState 0 false false (some .invalidIoAddress)).st.faulted = true ∧
+    (runnerIter toy toyState 0 false false (some .invalidIoAddress)).st.io.read toyAddr = .ok (.byte 90) :=
+  ⟨rfl, rfl, by decide, rfl, rfl, rfl, rfl, rfl⟩
 
-/-- **Counterexample (finding C08-runner-post-cycle): the guard `post = none` of the
-`c08_runner_*_partial` theorems cannot be dropped.**  On the toy application under fault policy
-`safe_halt`, an error of `apply_post_cycle` after a successful first cycle ends the thread in
-`Faulted` with that error, but the runtime is NOT faulted, nothing is latched, the fitting
-safe-state entry `%QB1 = 90` is NOT in the image, and no driver was handed any image after the
-cycle's own publish (the events are exactly those of a successful cycle: no delivery, no `Fault`).
-Replayed on the real `ResourceRunner` by `vharness c08 --probe postcycle`. -/
-theorem c08_counterexample_post_cycle :
-    let r := runnerIter toy toyState 0 false false (some .invalidIoAddress)
-    toyState.faulted = false ∧ toyState.policy = .safeHalt ∧ fits toyAddr (.byte 90) = true ∧
-    r.err = some .invalidIoAddress ∧ r.st.faulted = false ∧ r.st.lastFault = none ∧
-    r.st.io.read toyAddr = .ok (.byte 0) ∧
-    r.evs = [.cycleStart, .drvRead 0, .drvRead 1, .prog 0 1, .drvWrite 0 [], .drvWrite 1 [], .cycleEnd] := by
-  intro r
+/-- **Counterexample (finding C08-runner-restart-failure): the guard `loadErr = none` of
+`c08_runner_restart_signal_partial` cannot be dropped.**  On the toy application under fault
+policy `safe_halt`, after two good cycles, an external warm-restart request whose
+`load_retain_store` fails ends the thread in `Faulted` with that error, but the runtime is NOT
+faulted, nothing is latched, no driver is called (no event at all) and the fitting safe-state entry
+`%QB1 = 90` is NOT in the image.  Replayed on the real `ResourceRunner` by
+`vharness c08 --probe restartload`. -/
+theorem c08_counterexample_restart_load :
+    let s2 := run toy toyState [.cycle, .cycle]
+    let r := runnerRestartSignal toy s2 .warm (some .retainStore)
+    s2.faulted = false ∧ s2.policy = .safeHalt ∧ fits toyAddr (.byte 90) = true ∧
+    r.err = some .retainStore ∧ r.st.faulted = false ∧ r.st.lastFault = none ∧ r.evs = [] ∧
+    r.st.io.read toyAddr = .ok (.byte 0) := by
+  intro s2 r
   exact ⟨rfl, rfl, rfl, rfl, rfl, rfl, rfl, rfl⟩
 
 end TrustVerif.C08
